@@ -153,7 +153,8 @@ fn main() {
                         if parts.is_empty() { gen_query(&mut r) } else { parts.join(" ") }
                     }
                     else { gen_query(&mut r) };
-        // short texts built from the query itself: the text is exactly the term's body, or that plus one character; or empty
+        // short texts built from the query itself: the text is exactly the term's body, or that plus one character, or the body twice
+        // (beginning and ending with it without being it); or empty
         if r.chance(1, 4) {
             let body: String = query.chars().filter(|c| !" |'^$!\\".contains(*c)).collect();
             // the query read as plain text: escaped blanks become blanks, sigils and bars go
@@ -162,7 +163,7 @@ fn main() {
             // the body in the other letter case, and spread out between other characters: what separates smart / respect / ignore
             let swap = |s: &str| -> String { s.chars().map(|c| if c.is_ascii_uppercase() { c.to_ascii_lowercase() } else if c.is_ascii_lowercase() { c.to_ascii_uppercase() } else { c }).collect() };
             let spread = |s: &str, r: &mut Rng| -> String { let mut o = String::new(); for c in s.chars() { if r.chance(1, 2) { o.push(*r.pick(&['x', '-', 'd', ' '])); } o.push(c); } o };
-            text = match r.below(13) { 9 => swap(&body), 10 => body.to_ascii_lowercase(), 11 => { let t = swap(&body); spread(&t, &mut r) }, 12 => { let t = body.to_ascii_lowercase(); spread(&t, &mut r) }, 7 => plain_bs.clone(), 8 => format!("{}{}", r.pick(&TCH), plain_bs), 5 => plain, 6 => format!("{}{}", plain, r.pick(&TCH)), 0 => String::new(), 1 => body, 2 => format!("{}{}", body, r.pick(&TCH)), 3 => format!("{}{}", r.pick(&TCH), body), _ => body.chars().rev().collect() };
+            text = match r.below(16) { 13 => format!("{}{}", body, body), 14 => format!("{} x {}", body, body), 15 => format!("{}{}{}", body, r.pick(&TCH), body), 9 => swap(&body), 10 => body.to_ascii_lowercase(), 11 => { let t = swap(&body); spread(&t, &mut r) }, 12 => { let t = body.to_ascii_lowercase(); spread(&t, &mut r) }, 7 => plain_bs.clone(), 8 => format!("{}{}", r.pick(&TCH), plain_bs), 5 => plain, 6 => format!("{}{}", plain, r.pick(&TCH)), 0 => String::new(), 1 => body, 2 => format!("{}{}", body, r.pick(&TCH)), 3 => format!("{}{}", r.pick(&TCH), body), _ => body.chars().rev().collect() };
         }
         // letter case is what separates smart / respect / ignore and the algorithms' defaults: the term's letters in another case
         if !regex_mode && query.chars().any(|c| c.is_ascii_alphabetic()) && r.chance(1, 4) {
